@@ -48,3 +48,18 @@ pub fn hash<T: Hash + 'static>(value: &T) -> u64 {
     value.hash(&mut s);
     s.finish()
 }
+
+/// Combines the hash of a memoized function's signature with its definition
+/// site (FNV-1a over the site string), so that distinct functions get distinct
+/// keys even if their signatures are textually identical.
+pub const fn fn_site_key(signature_hash: u64, site: &str) -> u64 {
+    let bytes = site.as_bytes();
+    let mut key = signature_hash ^ 0xcbf2_9ce4_8422_2325;
+    let mut i = 0;
+    while i < bytes.len() {
+        key ^= bytes[i] as u64;
+        key = key.wrapping_mul(0x0000_0100_0000_01b3);
+        i += 1;
+    }
+    key
+}
